@@ -94,6 +94,16 @@ Theorem C09_stream_sequences_are_batch_parts : forall c fs,
   end.
 Proof. exact (fun c fs => stream_sequences_spec c reset_complete_now fs []). Qed.
 Print Assumptions C09_stream_sequences_are_batch_parts.
+(* end to end: a chain of message lists written message by message through the stream encoder into a rewritable destination of
+   any kind through any write buffer -- if the stream encoder accepts it, every call succeeds and the destination ends up
+   holding exactly encode_fits of the same lists *)
+Theorem C09_stream_end_to_end : forall c k size fss ps, (can_seek k || can_writeat k = true)%bool ->
+  stream_sequences c (ss_init c) fss [] = Ok ps ->
+  exists w', stream_chain (wst_new k size [] None) ps 0 [] = (repeat false (length ps), w') /\
+             encode_fits c (map (mkefile 0 0 0) fss) [] = Ok (final_bytes w').
+Proof. exact stream_end_to_end. Qed.
+Print Assumptions C09_stream_end_to_end.
+
 (* non-vacuity: two sequences through the stream model, the second relying on nothing of the first *)
 Example C09_stream_instance :
   let ms := [mkmsg 0 0 [set_value (create_field 0 0) (VNum TU8 4)] []; mkmsg 0 20 [set_value (create_field 20 253) (VNum TU32 1000000000)] []] in
